@@ -649,6 +649,7 @@ static io_buf_t gs_iob;
 static int gs_sp[2];
 static atomic_uint gs_nlog, gs_done, gs_paused, gs_ntimeout, gs_nfull, gs_ndata, gs_stopped;
 static uint64_t gs_consumed, gs_base_off, gs_sent;
+static int gs_cookie;
 static uint16_t gs_win_off, gs_win_len;
 
 static c16s_rec *
@@ -690,9 +691,11 @@ s_task_cb(tp_task_p tptask, int error, io_buf_p buf, uint32_t eof, size_t transf
 	c16s_rec *r = s_log(1);
 	int ret = TP_TASK_CB_CONTINUE;
 
-	(void)udata; (void)buf;
+	(void)buf;
 	if (tpt_get_current() != g_owner)
 		gs_out->foreign_thread = 1;
+	if (udata != (void *)&gs_cookie)
+		gs_out->bad_udata = 1;
 	r->error = error;
 	r->eof = eof;
 	r->transfered = transfered_size;
@@ -727,8 +730,23 @@ s_task_cb(tp_task_p tptask, int error, io_buf_p buf, uint32_t eof, size_t transf
 static void
 s_start_cb(tpt_p tpt, void *udata) {
 	int rc;
+	uint32_t fl = (gs_scn->after_every_read ? TP_TASK_F_CB_AFTER_EVERY_READ : 0);
 	(void)udata;
-	rc = tp_task_create(tpt, (uintptr_t)gs_sp[0], tp_task_sr_handler, (gs_scn->after_every_read ? TP_TASK_F_CB_AFTER_EVERY_READ : 0), NULL, &gs_task);
+	if (0 == gs_scn->setup_mode) {
+		rc = tp_task_create(tpt, (uintptr_t)gs_sp[0], tp_task_sr_handler, fl, &gs_cookie, &gs_task);
+	} else { /* a bare task, configured through the accessors */
+		rc = tp_task_create(tpt, (uintptr_t)-1, tp_task_notify_handler, 0, NULL, &gs_task);
+		if (0 == rc) {
+			tp_task_ident_set(gs_task, (uintptr_t)gs_sp[0]);
+			tp_task_tp_cb_func_set(gs_task, tp_task_sr_handler);
+			if (0 != fl)
+				(void)tp_task_flags_add(gs_task, fl);
+			tp_task_udata_set(gs_task, &gs_cookie);
+			if ((uintptr_t)gs_sp[0] != tp_task_ident_get(gs_task) || tp_task_sr_handler != tp_task_tp_cb_func_get(gs_task) ||
+			    fl != tp_task_flags_get(gs_task) || (void *)&gs_cookie != tp_task_udata_get(gs_task) || tpt != tp_task_tpt_get(gs_task))
+				gs_out->accessor_mismatch = 1;
+		}
+	}
 	if (0 == rc)
 		rc = tp_task_start(gs_task, TP_EV_READ, (2 == gs_scn->ev_flags) ? TP_F_DISPATCH : 0, gs_scn->timeout_ms, 0, &gs_iob, s_task_cb);
 	gs_out->start_rc = rc;
@@ -744,6 +762,15 @@ s_restart_cb(tpt_p tpt, void *udata) {
 	s_window(st->a, st->b);
 	atomic_store(&gs_paused, 0);
 	r->rc = tp_task_start(gs_task, TP_EV_READ, (2 == gs_scn->ev_flags) ? TP_F_DISPATCH : 0, gs_scn->timeout_ms, 0, &gs_iob, s_task_cb);
+	atomic_fetch_add(&gs_done, 1);
+}
+static void
+s_stop_restart_cb(tpt_p tpt, void *udata) {
+	c16s_rec *r = s_log(6);
+	(void)tpt; (void)udata;
+	tp_task_stop(gs_task);
+	atomic_store(&gs_paused, 0);
+	r->rc = tp_task_restart(gs_task); /* continue: buffer, window and the count not reported yet stay as they are */
 	atomic_fetch_add(&gs_done, 1);
 }
 static void
@@ -852,6 +879,9 @@ c16s_run(const c16s_scn *scn, c16s_out *out) {
 			break;
 		case S_ENABLE:
 			out->hang |= s_call(s_enable_cb, NULL);
+			break;
+		case S_STOP_RESTART:
+			out->hang |= s_call(s_stop_restart_cb, NULL);
 			break;
 		case S_SLEEP:
 			usleep((useconds_t)st->a * 1000);
